@@ -22,7 +22,8 @@ RULE = ("Hypothesis draws a system spec and a tweak (none | base RAM/compute abo
         "the real model must raise ValueError. Oracle: build raises iff predicted (never another exception type); "
         "serverless nb == raw, autoscaling nb == ceil(raw), on-premise constant >= ceil(peak) and == fixed when given; "
         "storage cumulative need == base + running sum of replicated writes - expiries - deletions (by timestamp), "
-        ">= 0, nb x capacity >= cumulative, 0 <= active <= nb. Non-trivial = storage duration shorter than the period, "
+        ">= 0, nb x capacity >= cumulative, 0 <= active <= nb. In a quarter of the cases the same oracle is run on a live "
+        "model reached through a history of 1-4 edits (server type switched, durations changed, ...). Non-trivial = storage duration shorter than the period, "
         "or writing+deleting jobs, or a fixed count, or an expected rejection.")
 ASSUMPTIONS = ["small systems; loads up to 1000 journey starts per hour",
                "a cumulative need within 1e-9 of the largest hourly delta of zero counts as zero (float cancellation)",
